@@ -966,6 +966,50 @@ func (g *Gen) Input() Input {
 }
 
 // an input with one deliberately malformed call
+// ---- texts WITH arguments that contain neither a space nor a back-quote (the heuristics of Table,
+// Select, BuildCondition look at exactly these bytes) ----
+func (g *Gen) jsonArr() V {
+	return vs(Sc{K: "str", S: fmt.Sprintf("[%d,%d,\"%s\"]", g.r.Range(1, 9), g.r.Range(10, 99), strings.ReplaceAll(strings.ReplaceAll(g.fr.str(), "\\", "/"), "\"", "'"))}, "string")
+}
+
+func (g *Gen) tightInput() Input {
+	in := Input{TI: ItemTI, Fin: Fin{K: lib.Pick(g.r, []string{"find", "find", "count", "first"})}}
+	switch g.r.Intn(8) {
+	case 0: // table-valued function
+		in.Chain = []V{{T: "KTable", S: "json_each(?)", S2: tableAlias("json_each(?)"), L: []V{g.jsonArr()}},
+			{T: "KCond", S: "KWh", X: vp(vq("value<>?")), L: []V{g.strOrOther()}}}
+		in.Fin = Fin{K: lib.Pick(g.r, []string{"find", "count"})}
+	case 1: // bare sub-query as table
+		in.Chain = []V{{T: "KTable", S: "(?)", S2: tableAlias("(?)"), L: []V{g.sub(1, false)}},
+			{T: "KCond", S: "KWh", X: vp(vq("id>?")), L: []V{g.int()}}}
+		in.Fin = Fin{K: lib.Pick(g.r, []string{"find", "count"})}
+	case 2:
+		in.Chain = []V{{T: "KTable", S: "(?)", S2: tableAlias("(?)"), L: []V{g.rawsub()}}}
+		in.Fin = Fin{K: "count"}
+	case 3:
+		in.Chain = []V{{T: "KSelect", S: "coalesce(?,name)", L: []V{g.strOrOther()}}, g.condCall(1, false)}
+		in.Fin = Fin{K: "find"}
+	case 4:
+		in.Chain = []V{{T: "KDistinct", S: "coalesce(?,code)", L: []V{g.strOrOther()}}}
+		in.Fin = Fin{K: "find"}
+	case 5:
+		in.Chain = []V{{T: "KGroup", S: "name"}, {T: "KHaving", X: vp(vq("count(*)>=?")), L: []V{g.int()}},
+			{T: "KCond", S: lib.Pick(g.r, []string{"KWh", "KNot"}), X: vp(vq("code<>?")), L: []V{g.strOrOther()}}}
+		in.Fin = Fin{K: "find"}
+	case 6:
+		in.Chain = []V{{T: "KOrderExpr", X: vp(V{T: "VExpr", S: "coalesce(?,name)", L: []V{g.strOrOther()}})},
+			{T: "KCond", S: "KWh", X: vp(vq("age>?")), L: []V{g.int()}}}
+	default:
+		in.Chain = []V{{T: "KJoins", S: "JOIN json_each(?) AS j ON j.value=items.id", L: []V{g.jsonArr()}},
+			{T: "KCond", S: "KWh", X: vp(vq("items.name<>?")), L: []V{g.strOrOther()}}}
+		in.Fin = Fin{K: "find"}
+	}
+	return in
+}
+
+// TightInput: texts with arguments and without spaces / back-quotes.
+func (g *Gen) TightInput() Input { return g.tightInput() }
+
 // LitQInput: a case whose SQL text holds '?' characters that are not placeholders.
 func (g *Gen) LitQInput() Input { return g.litQInput() }
 
